@@ -56,6 +56,16 @@ TRANSLATOR_TIES = {
                    "against the model's table stdFilters on every run (names, parameter types, default-function parameters, "
                    "error result); the filter BODIES are tied by the correspondence streams, not by T2",
     },
+    "token_re_is_source": {
+        "props": ["C05", "C19"],
+        "module": "Proofs.TokenRe",
+        "trusted": "translator T4 (translate/tokenre, go/ast, nothing executed) reads the string-building expressions of "
+                   "parser.formTokenMatcher; token_re_is_source re-checks on every run that the text they build is the model's "
+                   "tokenRe printed in Go syntax. Trusted there: the Lean reading of fmt.Sprintf (%s, %v, %%), regexp.QuoteMeta, "
+                   "strings.Join and of the range loop over an ASCII string (TokenReSrc.pattern), the printer Re.toGoSyntax "
+                   "(that its text denotes the expression), and the one normalisation (?s:.+?) = (?s:.)+?; that Go's regexp "
+                   "reads the text as the model's matcher reads the expression is tied by the scan/delims streams, not by T4",
+    },
 }
 for _name, _t in TRANSLATOR_TIES.items():
     for _pid in _t["props"]:
